@@ -43,7 +43,8 @@ Lookup(vars, x) ==
 EvalExpr(e, vars) == IF e.k = "c" THEN Str(e.v) ELSE Lookup(vars, e.x)
 Truthy(v) == CASE v.k = "s" -> v.v # ""
                [] v.k = "l" -> v.v # <<>>
-               [] v.k = "d" -> TRUE
+               [] v.k = "d" -> v.v # <<>>            \* a dict (slot data / provided data) is true iff non-empty
+               [] v.k = "ref" -> TRUE                 \* the default alias of a fill (an object)
                [] OTHER -> FALSE
 Show(v) == IF v.k = "s" THEN v.v ELSE ""          \* generated programs only print scalars
 Field(v, f) == IF v.k = "d" /\ HasB(v.v, f) THEN GetB(v.v, f) ELSE Undef
